@@ -20,7 +20,7 @@ SPEC = dict(
                "in a tight loop - every answer must be one of the states the script passes through when run alone, never an earlier one after a later one; "
                "(4) a monitor hammer: 16 goroutines x thousands of monitored searches, then every total - also the sum of the observed query lengths - must account for "
                "every search; (5) a 16-goroutine LRU hammer. A round whose goroutines are still parked on locks of the code under test after two minutes, none running, "
-               "is reported as a deadlock with their stacks (anything else that slow is inconclusive). Any race report whose stack touches the module is a violation.",
+               "is reported as a deadlock with their stacks (anything else that slow is inconclusive). Any race report whose stack touches the module is a violation. Every third round all goroutines share one platform list spelt as people spell it (Linux, ' macos ', Darwin, OSX) with spare capacity behind it; it must come back unchanged.",
     level_note="The race detector sees only races on executed paths with the observed happens-before; linearizability is decided per recorded history "
                "(porcupine timeout 10 s => inconclusive). EnableCache / EnableMonitoring are not in the statement's list of concurrent operations and are not mixed in.",
     engines=[dict(name="conc-search", shards=T(8, 16), timeout=T(1500, 7200), race=True, parallel=8),
